@@ -37,4 +37,15 @@ theorem overlap_slices (b : BBox) (ny nx : Int) :
 
 end
 
+
+/-- which attributes each translated function reads (a rename such as `vertices` → `_vertices`
+keeps the arithmetic but changes this list). -/
+theorem reads_eq :
+    FormulasC19.bbox_from_float_reads = ["xmax", "xmin", "ymax", "ymin"] ∧
+    FormulasC19.bbox_union_reads = ["other_ixmax", "other_ixmin", "other_iymax", "other_iymin", "self_ixmax", "self_ixmin", "self_iymax", "self_iymin"] ∧
+    FormulasC19.bbox_intersection_reads = ["other_ixmax", "other_ixmin", "other_iymax", "other_iymin", "self_ixmax", "self_ixmin", "self_iymax", "self_iymin"] ∧
+    FormulasC19.bbox_shape_reads = ["self_ixmax", "self_ixmin", "self_iymax", "self_iymin"] ∧
+    FormulasC19.bbox_overlap_slices_reads = ["self_ixmax", "self_ixmin", "self_iymax", "self_iymin", "shape_0", "shape_1"] :=
+  ⟨rfl, rfl, rfl, rfl, rfl⟩
+
 end RegionsVerif.Bridge.C19
